@@ -36,7 +36,9 @@ pub struct RefSlave {
     pub prm_fault: bool,
     pub cfg_fault: bool,
     /// transient flags reported with the next diagnostics reply only
-    pub once_not_ready: bool,
+    /// number of further diagnostics replies that report Station_Not_Ready although the slave is in
+    /// data exchange (a slow device)
+    pub not_ready_polls: u8,
     pub once_prm_fault: bool,
     pub once_cfg_fault: bool,
     pub once_prm_req: bool,
@@ -66,7 +68,7 @@ impl RefSlave {
             outputs: vec![],
             prm_fault: false,
             cfg_fault: false,
-            once_not_ready: false,
+            not_ready_polls: 0,
             once_prm_fault: false,
             once_cfg_fault: false,
             once_prm_req: false,
@@ -125,7 +127,7 @@ impl RefSlave {
             Some(60) => {
                 let mut b0 = 0u8;
                 let mut b1 = 0x04u8;
-                if self.state != SlaveState::DataExch || self.once_not_ready {
+                if self.state != SlaveState::DataExch || self.not_ready_polls > 0 {
                     b0 |= 0x02;
                 }
                 if self.cfg_fault || self.once_cfg_fault {
@@ -140,7 +142,7 @@ impl RefSlave {
                 if self.state == SlaveState::WaitPrm || self.once_prm_req {
                     b1 |= 0x01;
                 }
-                self.once_not_ready = false;
+                self.not_ready_polls = self.not_ready_polls.saturating_sub(1);
                 self.once_cfg_fault = false;
                 self.once_prm_fault = false;
                 self.once_prm_req = false;
@@ -413,7 +415,7 @@ pub fn gen_act(t: &mut Tape, rich: bool) -> Act {
         5 => Act::Watchdog,
         6 => Act::UserDiagInFlight,
         7 => Act::SlaveDiagPending,
-        8 => Act::SlaveTransient(t.below(4) as u8),
+        8 => Act::SlaveTransient(t.below(9) as u8),
         9 => Act::EnterOperateInFlight,
         _ => Act::ResetInFlight,
     }
@@ -761,10 +763,12 @@ impl DpRig {
             }
             Act::SlaveTransient(w) => {
                 match w {
-                    0 => self.slaves[k].once_not_ready = true,
+                    0 => self.slaves[k].not_ready_polls = 1,
                     1 => self.slaves[k].once_prm_fault = true,
                     2 => self.slaves[k].once_cfg_fault = true,
-                    _ => self.slaves[k].once_prm_req = true,
+                    3 => self.slaves[k].once_prm_req = true,
+                    // a slow device: not ready for several validation polls
+                    n => self.slaves[k].not_ready_polls = *n - 2,
                 }
                 reply = self.slaves[k].handle(&req);
             }
